@@ -158,6 +158,10 @@ class State:
     def assume(s, f):
         if f is True or (z3.is_bool(f) and z3.is_true(f)):
             return
+        if z3.is_expr(f) and z3.is_and(f):
+            # keep conjuncts separate: the quantifier-free ones stay usable by the cheap feasibility checks
+            for a in f.children(): s.assume(a)
+            return
         s.pc.append(f)
 
     def newref(s, hint='obj'):
